@@ -781,10 +781,24 @@ impl Tuple {
 }
 
 impl ArgPattern {
+    /// The expression that `<>` stands for: the bound name, or for a tuple
+    /// pattern the tuple of the names it binds. Unlike the pattern itself
+    /// this never contains `mut`.
     pub fn name(&self) -> String {
         match self {
             ArgPattern::Name(name) => name.name.to_string(),
-            ArgPattern::Tuple(tuple) => tuple.to_string(),
+            ArgPattern::Tuple(tuple) => {
+                let names: Vec<_> = tuple.tuples.iter().map(ArgPattern::name).collect();
+                format!("({})", names.join(", "))
+            }
+        }
+    }
+
+    /// The names bound by this pattern, left to right.
+    pub fn names(&self) -> Vec<String> {
+        match self {
+            ArgPattern::Name(name) => vec![name.name.to_string()],
+            ArgPattern::Tuple(tuple) => tuple.tuples.iter().flat_map(ArgPattern::names).collect(),
         }
     }
 }
